@@ -17,7 +17,16 @@ LawRule == LET c == RCase(Ev.case) IN
            /\ \A i \in 1..Len(Ev.probes) : ProbeOK(Ev.probes[i])
            /\ PmfOK(Ev.P, LAdd(Ev.tail, Ev.oneword), c)    \* Zeta's documented +inf (proposal overflow) belongs to the tail
 
-Rule == CASE Ev.op = "law" -> LawRule [] OTHER -> FALSE
+\* Beta: cumulative law at the anchors; proposals that not even the most favourable acceptance word accepts (Ev.other) have
+\* acceptance mass below one ticket and contribute nothing
+LawCRule == LET c == BCase(Ev.case) IN
+            /\ Ev.res = "Ok" /\ c.fam = Ev.fam
+            /\ Ev.nonint = 0                                \* no NaN output
+            /\ Len(Ev.xs) = Len(c.anchors) /\ \A j \in 1..Len(Ev.xs) : Ev.xs[j] = c.anchors[j].x
+            /\ \A i \in 1..Len(Ev.probes) : ProbeOK(Ev.probes[i])
+            /\ CdfOK(Ev.P, c)
+
+Rule == CASE Ev.op = "law" -> LawRule [] Ev.op = "lawc" -> LawCRule [] OTHER -> FALSE
 
 TInit == l = 1
 TNext == /\ l <= Len(Rec) /\ l' = l + 1
